@@ -120,6 +120,9 @@ impl<M: Model> Receiver<M> {
 
         match msg {
             Some(mut msg) => {
+                #[cfg(nexosim_verif)]
+                crate::verif_hooks::on_channel_op(&*self.inner as *const Inner<M> as usize, false);
+
                 // Decrement the count of in-flight messages.
                 THREAD_MSG_COUNT.set(THREAD_MSG_COUNT.get().wrapping_sub(1));
 
@@ -237,6 +240,9 @@ impl<M: Model> Sender<M> {
             .await;
 
         if success {
+            #[cfg(nexosim_verif)]
+            crate::verif_hooks::on_channel_op(self.channel_id(), true);
+
             self.inner.receiver_signal.notify();
 
             // Increment the count of in-flight messages.
